@@ -97,6 +97,35 @@ func (c *KeccakCircuit) Define(api frontend.API) error {
 	return nil
 }
 
+// KeccakPairCircuit: two hashes over adjacent chunks In[:Split] and In[Split:] of one input buffer
+// (how a caller hashes consecutive fields of a larger message); each digest asserted separately, and
+// the input wires are compared afterwards with an untouched copy (a gadget must not write to its input).
+type KeccakPairCircuit struct {
+	In     []frontend.Variable
+	Out1   []frontend.Variable
+	Out2   []frontend.Variable
+	Split  int
+	Domain int
+}
+
+func (c *KeccakPairCircuit) Define(api frontend.API) error {
+	hash := keccak.NewKeccak256
+	if c.Domain == 6 {
+		hash = keccak.NewSHA3_256
+	}
+	keep := append([]frontend.Variable{}, c.In...)
+	h1 := hash(api, c.Split, c.In[:c.Split]...)
+	h2 := hash(api, len(c.In)-c.Split, c.In[c.Split:]...)
+	for i := range h1 {
+		api.AssertIsEqual(h1[i], c.Out1[i])
+		api.AssertIsEqual(h2[i], c.Out2[i])
+	}
+	for i := range keep {
+		api.AssertIsEqual(keep[i], c.In[i])
+	}
+	return nil
+}
+
 // ToReducedCircuit: ToReducedBigEndian of V with Size bits, output asserted equal to Out.
 type ToReducedCircuit struct {
 	V    frontend.Variable
